@@ -22,7 +22,7 @@ def describe(tier):
                 f"(leaves, key labelling) in {BOUNDS[tier]} ('all' = every restricted-growth labelling incl. repeated keys), rendered with "
                 "minimal brackets, x ALL 3^k assignments of {FULFILLED, UNFULFILLED, UNKNOWN} to its k requirement keys. Oracle: reference "
                 "evaluator R3 (tables R1, hints/FCs NEUTRAL, juxtaposition copies the partner's state) applied to the implementation's own parse "
-                "tree == evaluate_requirement_constraint_tree(...).conditions_fulfilled, and requirement_constraint_evaluation(expr) "
+                "tree == evaluate_requirement_constraint_tree(...).conditions_fulfilled, and requirement_constraint_evaluation(expr) and requirement_constraint_evaluation(<the parsed Tree object, reused for every assignment>) "
                 "(through injected evaluators) == mapping F->(True,conditional) N->(True,unconditional) U->(False,conditional) "
                 "UNKNOWN->(None,None). Expressions with <= 3 leaves are additionally evaluated with the answers delivered through the library's own "
                 "DictBased* evaluators (evaluator_factory), its ContentEvaluationResultBased* evaluators (fresh and one shared EvaluatableData object), JsonFileHintsProvider / JsonFilePackageResolver and user-style method-based "
@@ -123,6 +123,13 @@ def check_expr(expr, only_assign=None):
         elif (r2[1], r2[2]) != exp_out:
             out.append({"kind": "outcome-mapping", "case": case, "expected": list(exp_out), "observed": [r2[1], r2[2]],
                         "msg": f"{expr} under {a}: requirement_constraint_evaluation (fulfilled, is_conditional)"})
+        # the async entry point also accepts the parsed TREE (the same Tree object for every assignment)
+        r3 = X.eval_async(T, tt, a)
+        if r3[0] == "exc":
+            out.append({"kind": "evaluation-raised/tree-input", "case": case, "expected": list(exp_out), "observed": r3[1], "msg": expr})
+        elif (r3[1], r3[2]) != exp_out:
+            out.append({"kind": "outcome-mapping/tree-input", "case": case, "expected": list(exp_out), "observed": [r3[1], r3[2]],
+                        "msg": f"{expr} under {a}: requirement_constraint_evaluation(<Tree>)"})
         outcomes.add(exp_state)
     return out, pairs, nontrivial, outcomes
 
